@@ -109,6 +109,7 @@ pub fn run(prop: &str, tier: Tier) -> (RunMeta, Acc) {
             let parts = vec![
                 Part::new(std.base_list(), usize::MAX, usize::MAX, fixed()),
                 Part::new(gi, 6000, gen::GEN_N, fixed()),
+                Part::new(pools::GenPool { name: "G-IMPORT-BLANK".into(), n: 6000, f: Box::new(gen::gen_import_blank) }, 1500, 6000, fixed()),
                 Part::new(pools::comment_pool(sb.clone()), 6000, 100_000, fixed()),
                 Part::new(pools::ws_pool(sb.clone()), 2000, 40_000, fixed()),
             ];
@@ -136,6 +137,22 @@ pub fn run(prop: &str, tier: Tier) -> (RunMeta, Acc) {
             let cfgs = vec![Cfg::new(80, 2, false), Cfg::new(0, 2, false), Cfg::new(40, 4, false)];
             let snb = std.snippet_bases.clone();
             let _ = sb;
+            // mutation bases among the range shapes: only those whose whole-document formatting keeps the tree at the three
+            // configurations used here (mutating an input that already fails only multiplies the same finding)
+            let healthy_shapes: Vec<crate::engine::Case> = corpus::range_shapes()
+                .into_iter()
+                .filter(|c| {
+                    let Some(px) = crate::tree::parse_ok(&c.text) else { return false };
+                    let nx = crate::nf::nf(&px, crate::nf::NfOpts { sort_imports: false });
+                    cfgs.iter().all(|&cfg| match fmtx::fmt(&c.text, cfg) {
+                        fmtx::FmtOut::Ok(y) => {
+                            let py = typst_syntax::parse(&y);
+                            !py.erroneous() && crate::nf::first_diff(&nx, &crate::nf::nf(&py, crate::nf::NfOpts { sort_imports: false })).is_none()
+                        }
+                        _ => false,
+                    })
+                })
+                .collect();
             let mut parts = vec![
                 Part::new(std.base_list(), 700, usize::MAX, fixed()),
                 Part::new(pools::stride(pools::comment_pool(snb.clone()), 8), 600, usize::MAX, fixed()),
@@ -145,8 +162,8 @@ pub fn run(prop: &str, tier: Tier) -> (RunMeta, Acc) {
                 Part::new(pools::stride(p_total::havoc_pool(snb.clone()), 10), 600, usize::MAX, fixed()),
                 Part::new(ListPool { name: "corpus(hostile)".into(), cases: corpus::hostile() }, 300, usize::MAX, fixed()),
                 Part::new(ListPool { name: "corpus(range-shapes)".into(), cases: corpus::range_shapes() }, usize::MAX, usize::MAX, fixed()),
-                Part::new(pools::stride(pools::comment_pool(pools::make_bases(corpus::range_shapes())), 3), 300, usize::MAX, fixed()),
-                Part::new(pools::stride(pools::ws_pool(pools::make_bases(corpus::range_shapes())), 3), 200, usize::MAX, fixed()),
+                Part::new(pools::stride(pools::comment_pool(pools::make_bases(healthy_shapes.clone())), 3), 300, usize::MAX, fixed()),
+                Part::new(pools::stride(pools::ws_pool(pools::make_bases(healthy_shapes.clone())), 3), 200, usize::MAX, fixed()),
             ];
             for g in gen::all_gen_pools() {
                 parts.push(Part::new(pools::StridePool { inner: g, stride: 5 }, 250, usize::MAX, fixed()));
@@ -198,7 +215,7 @@ pub fn run(prop: &str, tier: Tier) -> (RunMeta, Acc) {
             });
             meta.pools = pm;
             // depth ladders in isolated processes
-            let mut fams: Vec<usize> = (0..gen::NEST_FAMILIES).collect();
+            let mut fams: Vec<usize> = (0..gen::NEST_FAMILIES_ALL).collect();
             let mut rng = Rng::new(seed ^ 0xC05);
             let n_mixed = if tier == Tier::Quick { 6 } else { 60 };
             for _ in 0..n_mixed {
@@ -237,7 +254,7 @@ pub fn run(prop: &str, tier: Tier) -> (RunMeta, Acc) {
             let (mut acc, pm) = workload::run_parts(&parts, tier, seed, |_, case, _, acc| p_perf::run_case(case, &cfgs, acc));
             meta.pools = pm;
             // ladders (in-process, big stacks)
-            let mut fams: Vec<usize> = (0..gen::NEST_FAMILIES).collect();
+            let mut fams: Vec<usize> = (0..gen::NEST_FAMILIES_ALL).collect();
             let mut rng = Rng::new(seed ^ 0xC18);
             let n_mixed = if tier == Tier::Quick { 200 } else { 12_000 };
             for _ in 0..n_mixed {
@@ -288,7 +305,7 @@ pub fn run(prop: &str, tier: Tier) -> (RunMeta, Acc) {
             cases.extend(std.adversarial.clone());
             cases.extend(std.fixtures.iter().filter(|c| c.text.len() < 4000).cloned());
             let (n, threads, rounds, envn): (usize, Vec<usize>, usize, usize) =
-                if tier == Tier::Quick { (400, vec![2, 4, 16], 3, 100) } else { (4000, vec![2, 3, 4, 8, 16, 64], 10, 1000) };
+                if tier == Tier::Quick { (800, vec![2, 4, 16], 3, 100) } else { (6000, vec![2, 3, 4, 8, 16, 64], 10, 1000) };
             let items = p_pure::build_items(&cases, n, &mut rng);
             let mut acc = Acc::new();
             p_pure::run(&items, &threads, rounds, seed, envn, &mut acc);
